@@ -83,7 +83,7 @@ def run_shard(tier, seed, idx, n, res, tmp, judge=None, prop=None):
             case.close()
             continue
         try:
-            vg = ValueGen(m, rnd, bool_for_number=(judge != 'roundtrip'))
+            vg = ValueGen(m, rnd, bool_for_number=(judge != 'roundtrip'), subclass_slots=(judge == 'wire'))
             if judge == 'roundtrip':
                 alias_nullable_probe(res, m, pkg, vg, ss, ci, case)
             for label, shape, t, validator in positions:
